@@ -183,6 +183,11 @@ def c17_quick_models():
     out.append(("clash:objs", model([ca, cb], [], [obj("Alpha"), obj("Beta")])))
     out.append(("clash:group", model([ca, cb], [{"name": "Bundle", "mandatory": ["Alpha"], "optional": ["Beta"]}], [grp("Bundle")])))
     out.append(("clash:both", model([ca, cb], [{"name": "Bundle", "mandatory": ["Alpha", "Beta"], "optional": []}], [obj("Alpha"), obj("Beta"), grp("Bundle")])))
+    # F6b a trait's own consuming method is called `drop` (clashes with the synthesised `<obj>_drop` helper)
+    dm = [meth("alpha_get", "ref", ["u64"], "u64"), meth("drop", "own", [], "void")]
+    for c, x in (("Box", "arc"), ("Box", "none"), ("Mut", "arc")):
+        out.append(("clash:drop_method:%s:%s" % (c, x), single(dm, c, x, "obj")))
+    out.append(("clash:drop_method:group", single(dm, "Box", "arc", "gmand")))
     # F7 one trait name is a suffix / prefix of another
     s1 = trait("Store", [meth("store_put", "mut", ["u64"], "void")])
     s2 = trait("KeyStore", [meth("key_get", "ref", ["slice"], "u64")])
@@ -345,6 +350,13 @@ def c18_cases(tier):
             for fo in ([[]] if quick else [[], ALL_FOREIGN]):
                 for lang in langs:
                     add("contexts", "ctx%d:%s" % (len(ctxs), "+".join(w) if w else "plain"), wrapped_model(ctxs, w, cont, fo), lang)
+    # S2a a trait WITHOUT temporary storage whose name is a suffix of a trait WITH temporary storage (Ost / Host), same context
+    for w in (["get_mut"], ["borrow", "into", "get_mut", "get_ref"]):
+        wm = wrapped_model(["arc"], w)
+        wm["traits"].append(trait("Ost", [meth("ost_ping", "ref", [], "void")]))
+        wm["instances"].append(obj("Ost"))
+        for lang in langs:
+            add("contexts", "names:suffix_of_rettmp_trait:%d" % len(w), wm, lang)
     # S2b 1..3 distinct callback element types (struct items) in one header, in one method / spread over traits, with/without contexts
     cbsets = [["cb"], ["cb", "cb_p2"], ["cb_p2", "cb_p3"], ["cb", "cb_p2", "cb_p3"], ["cb_p3", "cb_p2", "cb"]]
     for ks in cbsets:
